@@ -127,6 +127,10 @@ class BaseWorker:
             exc.__formatted_error__ = tb
             raise exc
         else:
+            # The call went through in the worker - including the state sync,
+            # if any - it is only the result that could not be sent back.
+            if sync_state is not None:
+                sync_state()
             exc = RuntimeError(
                 'could not serialize result in worker subprocess')
             exc.__formatted_error__ = data[0]
